@@ -607,3 +607,59 @@ def double_splice(rng, ea, ep, ext, analysis_first):
     xa, xb = where[ea.id]
     return {"text": full, "a": blen(full[:ca]), "b": blen(full[:cb]), "aa": blen(full[:xa]), "ab": blen(full[:xb]),
             "tags": tags, "old_style": info["old_style_meta"]}
+
+
+# ---------------------------------------------------------------------------------------------
+# well-formed components-mode blocks (extensions.md, Modes: "`ingredients` | `components`. In this mode
+# only components can be defined, all regular text is omitted. Useful for writing an ingredient list
+# manually at the beginning of the recipe").  in_step (event_consumer.rs:505-516) warns about ignored
+# text only when it has an alphanumeric character, "so that the user can format the text with spaces,
+# hypens or whatever": every separator below is non-alphanumeric, so the list is diagnostic-free.
+COMP_SEPARATORS = [", ", ". ", "; ", " * ", " • ", " / ", " - ", "\n", "\n- ", "\n* ", "\n• ", " ", ",\n", " · ", " | "]
+COMP_BULLETS = ["", "", "- ", "* ", "• ", "· "]
+COMP_KEYS = ["[mode]", "[define]"]
+COMP_ON = ["components", "ingredients"]
+COMP_OFF = ["all", "default"]
+
+
+def wf_components_block(rng, ext):
+    """a components-mode ingredient list laid out with punctuation, then the mode switched back and the
+    ordinary steps of a well-formed recipe"""
+    r = rng
+    text, exp, info, g = gen_base(r, ext)
+    base = strip_marks(text)
+    starts = [s for s in safe_line_starts(base) if s[1] != "splits-a-step"]
+    if r.random() < 0.5:
+        starts = [s for s in starts if s[1] == "top"] or starts       # "at the beginning of the recipe"
+    pos, tag = r.choice(starts)
+    names = r.sample(["zzflour", "zz olive oil", "zzeggs", "zzÁgua", "zz sea salt 2", "zzbutter", "zzrice"], r.randint(2, 5))
+    items = []
+    for nm in names:
+        if r.random() < 0.2:
+            items.append("#" + nm + ("{}" if not nm.isalpha() or r.random() < 0.5 else ""))
+        else:
+            q = r.choice(["", "1%kg", "2", "1/2%cup", "some", "3.5%g"])
+            items.append("@" + nm + ("{" + q + "}" if (q or not nm.isalpha() or r.random() < 0.5) else ""))
+    sep = r.choice(COMP_SEPARATORS)
+    body = r.choice(COMP_BULLETS)
+    for i, it in enumerate(items):
+        if i:
+            body += sep if r.random() < 0.8 else r.choice(COMP_SEPARATORS)
+        body += it
+    body += r.choice(["", ".", ".", ";", " ."])
+    if " | " in body and ext & X_ALIAS:
+        body = body.replace(" | ", " / ")       # `|` is the alias separator under COMPONENT_ALIAS
+    key = r.choice(COMP_KEYS)
+    sp1, sp2 = r.choice(["", " "]), r.choice(["", " ", "  "])
+    on = ">>%s%s:%s%s" % (sp1, key, sp2, r.choice(COMP_ON))
+    off = ">> %s: %s" % (r.choice(COMP_KEYS), r.choice(COMP_OFF))
+    group = on + "\n" + body + "\n" + off + "\n"
+    if ext & X_MOD and r.random() < 0.4:
+        refs = [it for it in items if it.startswith("@")][:2]
+        if refs:
+            group += "Mix " + " and ".join("@&" + it[1:].split("{")[0] + "{}" for it in refs) + ".\n\n"
+    if tag == "end" and not base.endswith("\n"):
+        group = "\n" + group
+    full = base[:pos] + group + base[pos:]
+    return {"text": full, "base": base, "tags": ["components-block", tag, "sep=%r" % sep],
+            "old_style": info["old_style_meta"], "pair": [on, body]}
